@@ -423,3 +423,29 @@ func (f *Func) failureWraps(call *ast.CallExpr, obj types.Object) (bool, string)
 	}
 	return true, ""
 }
+
+// edgesWhere returns the first vertices of the branch edges on which some atom of the branch condition
+// satisfies pred (independent of how the condition is spelled: `x`, `!x`, `x == nil`, conjunctions).
+func (g *Graph) edgesWhere(pred func(Atom) bool) []int {
+	var out []int
+	for _, ev := range g.condVertices() {
+		cond := g.node[ev-1].(ast.Expr)
+		for k := 0; k < 2; k++ {
+			var atoms []Atom
+			splitAtoms(cond, k == 0, &atoms)
+			if hasAtom(atoms, pred) {
+				out = append(out, g.succ[ev][k])
+			}
+		}
+	}
+	return out
+}
+
+// allPathsPass: every path from vertex `from` (inclusive) to an exit passes a vertex satisfying pred.
+func (g *Graph) allPathsPass(from int, pred func(int) bool) bool {
+	if g.node[from] != nil && pred(from) {
+		return true
+	}
+	ok, _ := g.MustPass(from, g.Exits, pred)
+	return ok
+}
